@@ -109,6 +109,8 @@ for nm, o in _ops:
         T('%s(%s,A)' % (nm, cn), 'A', (lambda r, o=o, c=c: o(c, r)), dom=away0(0) if nm == 'div' else None,
           tags=('core', 'poly') if nm != 'div' else ('core',))
 T('neg(A)', 'A', operator.neg, tags=('core', 'poly'))
+T('add(0,A)', 'A', lambda r: 0 + r, tags=('core', 'poly', 'buf'))        # a snapshot: NumPy semantics give a copy
+T('mul(1,A)', 'A', lambda r: 1 * r, tags=('core', 'poly', 'buf'))
 for k in [0, 1, 2, 3, -1, -2, 0.5, 2.5]:
     if isinstance(k, float):
         d = pos(0)
@@ -566,6 +568,9 @@ SCENARIOS = {
     # aliasing: write through a view that is never read again; the parent buffer is the dependent
     'alias2': [['copy(A)', ['M0']], ['M[0]', ['r0']], ['setV[0]=S', ['r1', 'S0']], ['mul(A,A)', ['r0', 'r0']]],
     'alias3': [['copy(A)', ['M0']], ['M.T', ['r0']], ['setM[0]=V', ['r1', 'V0']], ['dot(M,V)', ['r0', 'V1']]],
+    # snapshot of a buffer taken as 0 + b, buffer overwritten afterwards, both used
+    'snap0': [['copy(A)', ['V0']], ['add(0,A)', ['r0']], ['setV[0]=S', ['r0', 'S1']], ['mul(A,A)', ['r1', 'r2']]],
+    'snap1': [['zerosV(A)', ['V0']], ['setV[...]=V', ['r0', 'V1']], ['mul(1,A)', ['r1']], ['setV[1:]=S', ['r1', 'S0']], ['sub(A,A)', ['r2', 'r3']]],
     'tan1': [['tan(A)', ['V0']], ['mul(A,A)', ['r0', 'V1']], ['sum(V,None)', ['r1']]],
 }
 
